@@ -6,15 +6,15 @@ CHECKS = [
          text="Decides, for every sampling function of union/cut/intersection domains and boundaries, that the facts established about each "
               "returned point set propositionally imply the class's own membership formula on every path (abstract interpretation, helpers under "
               "call-site bindings); filtering samplers return only rows accepted on those rows; Translate/Rotate push-forward inverts the "
-              "pull-back; the dependent product samples A at the B points it returns. Geometry of primitives, tolerances and termination are NOT decided.",
+              "pull-back; the dependent product samples A at the B points it returns. Geometry of primitives, tolerances and termination are NOT decided. Also: slot-wise return of one-point-per-parameter-row proposals, positive proposal counts, and the rules shared from C02/C05/C10/C13/C15/C17 on which sampling correctness rests.",
          note=_T + "Operand samplers/membership tests are correct (induction over the expression).",
-         technique=_SA + "abstract interpretation over fact formulas + truth tables; operator-word term algebra for motions"),
+         technique=_SA + "abstract interpretation over fact formulas + truth tables; operator-word term algebra for motions; abstract interpretation of sampling helpers with local closures and symbolic row counts"),
     dict(property_id="C02",
          text="Decides the row-layout discipline of the sampler layer: parameter-major replication primitive, admissible layout pairs at every join, "
               "per-row loops (params[i] only, loop order, cut to n, guards re-initialised), sampler algebra, definite assignment on all paths, and "
-              "row-count agreement of the domain operations by finite instantiation over (n, k). Run-time shapes depending on user functions/data are NOT decided.",
+              "row-count agreement of the domain operations by finite instantiation over (n, k). Run-time shapes depending on user functions/data are NOT decided. Also: constructor data never rewritten from call parameters, upper bound of topped-up counts, interval boundary grid for n = 1..8 by partial evaluation.",
          note=_T + "Count equalities by finite instantiation on a fixed grid (reported as such).",
-         technique=_SA + "layout classification at join sites, loop-carried-state rule, definite assignment, row-count evaluation of expanded expressions"),
+         technique=_SA + "layout classification at join sites, loop-carried-state rule, definite assignment, row-count evaluation of expanded expressions; partial evaluation of small list/mask code"),
     dict(property_id="C04",
          text="Decides the dataflow shape of every sampler-driven Condition.forward: one draw per sampler, model/data/residual share one tracked draw, "
               "residual mapping complete and name-keyed, reduce(error(residual)), documented (error, reduce) per class, SquaredError axis, data-condition "
@@ -25,9 +25,9 @@ CHECKS = [
          text="Decides exactly the Boolean structure of _contains of union/cut/intersection/product and their boundaries (truth table vs set algebra under "
               "closedness/genericity), the pull-back structure of Translate/Rotate, row-wise evaluation of shape functions, the Cramer identity of the "
               "barycentric solve, purity of membership tests, the name-based column selection and that the absolute slack of boundary side tests on computed "
-              "barycentric coordinates (isclose atol + rtol*|c|, widened unit range) is not below float32 resolution. Primitive predicates and the sufficiency of tolerances are NOT decided.",
+              "barycentric coordinates (isclose atol + rtol*|c|, widened unit range) is not below float32 resolution. Primitive predicates and the sufficiency of tolerances are NOT decided. Also: sides of polygon boundaries are segments (no assignment true with all range tests false), orientation invariance of the interior tests (exchange of the spanning directions permutes the tested rational functions), linear radius bound of ball-shaped primitives, chunk loops cover every row.",
          note=_T,
-         technique=_SA + "Boolean formula extraction + truth tables, free-module term algebra, rational-function identities, constant propagation of tolerance arguments through helper call sites"),
+         technique=_SA + "Boolean formula extraction + truth tables, free-module term algebra, rational-function identities, constant propagation of tolerance arguments through helper call sites; truth-table satisfiability with range atoms forced false, rational-function set comparison under a substitution"),
     dict(property_id="C07",
          text="Static decision of necessary structural conditions of the Solver step: loss polynomial == sum weight_i*loss_i, whole-range loop, step "
               "index, counter, ModuleList wrapping, optimizer over self.parameters(), registration of every condition-held Parameter, "
@@ -62,15 +62,15 @@ CHECKS = [
     dict(property_id="C16",
          text="Decides the index algebra of the data sets: one permutation value on all coupled tensors/axes, identical windows on coupled tensors, "
               "independent digits of the joint batch index with matching __len__, and exactly-once aggregation over the loader. Batches for concrete sizes "
-              "beyond the index algebra are NOT decided.",
+              "beyond the index algebra are NOT decided. Also: coverage of the wrap-around windows over one pass for batch sizes below and above the data-set size by finite instantiation of the window bounds.",
          note=_T + "torch DataLoader visits indices 0..len-1 once.",
-         technique=_SA + "evaluation identities for permutations, window descriptors, digit classification, helper inlining with conditional variants"),
+         technique=_SA + "evaluation identities for permutations, window descriptors, digit classification, helper inlining with conditional variants; numeric instantiation of extracted window-bound expressions"),
     dict(property_id="C03",
          text="Decides the autograd call discipline (sum-then-grad, create_graph), the affine component/offset pairing of div / laplacian / jac (incl. precomputed "
               "offset lists), the index tables of rot / sym_grad / convective / normal_derivative / matrix_div, zero short-circuits and accumulator dtype/device. "
-              "Numerical agreement with analytic derivatives is NOT decided.",
+              "Numerical agreement with analytic derivatives is NOT decided. Also: control flow free of tensor values, no memoisation, graph test dominating every second derivative.",
          note=_T + "Rows of the model output depend only on the same input rows.",
-         technique=_SA + "recurrences of loop-carried symbols (offset' = offset + dim, acc' = acc + term), affine index forms in polynomial normal form, last-axis vs axis-1 selection, symbolic list evaluation"),
+         technique=_SA + "recurrences of loop-carried symbols (offset' = offset + dim, acc' = acc + term), affine index forms in polynomial normal form, last-axis vs axis-1 selection, symbolic list evaluation; guard dominance on paths"),
     dict(property_id="C06",
          text="Decides operand selection and sign of normals on Boolean boundaries, unit length and perpendicularity of edge normals as polynomial identities "
               "(in-place column updates modelled), radial normals, sign-definiteness of n·(opposite vertex - edge start) under vertex orientation, and the "
@@ -86,9 +86,9 @@ CHECKS = [
     dict(property_id="C10",
          text="Decides every primitive measure against the analytic table in rational normal form, non-negativity in a sign domain, the composition rules of "
               "union/cut/product/translate/rotate through public volume(), the user override, density-to-count conversion, absence of parameter-dependent "
-              "caching, and that flags survive partial evaluation. Documented estimates and third-party measures are NOT decided.",
+              "caching, and that flags survive partial evaluation. Documented estimates and third-party measures are NOT decided. Also: exclusive operand contributions of Boolean boundary density samplers, user-declared flags, truncated grid side counts, evaluated setter state.",
          note=_T + "radius > 0, upper >= lower.",
-         technique=_SA + "symbolic tensor evaluation to rational functions, sign domain, taint of cached values"),
+         technique=_SA + "symbolic tensor evaluation to rational functions, sign domain, taint of cached values; abstract fact sets of sampler contributions checked for joint satisfiability"),
     dict(property_id="C11",
          text="NARROW: decides only the construction named by the mechanism anchors (radial exponent 1/dim, azimuth, polar law, arclength walk with paired "
               "side lengths, triangle mirror, union mixture ratio, dependent-product acceptance, LHS strata and per-axis permutation, Normal proposals). "
@@ -116,9 +116,9 @@ CHECKS = [
     dict(property_id="C19",
          text="NARROW: decides that learnable state is registered (complete state_dict), that the callbacks save the right object at the right hook under "
               "distinct names without buffering, that solver hooks leave optimizer/scheduler state alone and restore the step counter, and inventories "
-              "step-written plain state that no checkpoint captures. Everything Lightning does and bit-exact resume are NOT decided.",
+              "step-written plain state that no checkpoint captures. Everything Lightning does and bit-exact resume are NOT decided. Also: restore protocol passed through unchanged (no assign=True, nothing removed from checkpoints), no persistent buffer used as a cache, no parameter-data writes in hooks, callbacks restore the train/eval mode.",
          note=_T + "Lightning restores module/optimizer/scheduler state.",
-         technique=_SA + "ownership and effect inventory, hook-order rules (state restored between on_fit_start and on_train_start), state layout fixed by constructors"),
+         technique=_SA + "ownership and effect inventory, hook-order rules (state restored between on_fit_start and on_train_start), state layout fixed by constructors; override / hook inventory over the class table"),
     dict(property_id="C20",
          text="Decides that a Fourier layer never writes to (an alias/view of) its input, that between the paired rfftn/irfftn (same axes, norm, s = input shape) "
               "the spectrum is only padded/truncated and multiplied by the kernel (no re-indexing, no constant mode offsets), and the point-wise structure "
